@@ -24,6 +24,8 @@ ESCAPES = {
     "\\u{41}": "A", "\\u{e9}": "\xe9", "\\u{20AC}": "€", "\\u{1F600}": "\U0001f600", "\\u{10FFFF}": "\U0010ffff", "\\u{0041}": "A",
 }
 MALFORMED = ["\\", "a\\", "\\x", "\\x4", "\\xg1", "\\x4g", "\\u", "\\u{", "\\u{41", "\\u{}", "\\u{4}", "\\u{g1}", "\\u{1234567}", "\\u41", "\\q",
+             # the right number of hex digits, but beyond the last code point (chr() would raise ValueError)
+             "\\u{110000}", "\\u{FFFFFF}",
              # what int(text, 16) forgives and pest's hex_digit does not
              "\\x 1", "\\x1 ", "\\x+1", "\\x-1", "\\x_1", "\\x1_", "\\x\u06641", "\\u{ 41}", "\\u{41 }", "\\u{+41}", "\\u{-41}", "\\u{4_1}", "\\u{0x41}", "\\u{\u0664\u0661}"]
 
